@@ -210,7 +210,9 @@ struct Run {
         std::string key = sub + "/" + cls;
         count("violations_total");
         count("viol:" + key);
-        if (viol_emitted[key]++ >= max_viol_per_class) return;
+        // cap the output per (sub-check, class, tag values) so that one failure class cannot hide another
+        if (viol_emitted[key + "/" + jobj(tags)]++ >= max_viol_per_class) return;
+        if (viol_emitted["*total*"]++ >= 400) return;
         emit(jobj({{"type", jstr("violation")}, {"sub_check", jstr(sub)}, {"class", jstr(cls)},
                    {"tags", jobj(tags)}, {"case", case_json}, {"detail", jstr(detail)},
                    {"replay_args", jstr(replay)}}));
